@@ -103,11 +103,11 @@ PROPS = {
         assumptions=BLOCK_ASSUME + ['Cosmos-lane signature verification is the SDK decorator (trusted); only its sequence effect is modelled; that an eth_secp256k1 signature binds sequence, account number and chain id in both sign modes is observed on the real VerifySignature (E-crypto) and is C19 for the rest'],
     ),
     'C13': dict(
-        lean_modules=['Model.Block', 'Model.Bloom', 'Properties.C05', 'Properties.C06', 'Properties.C13', 'Properties.C13Bloom', 'Facts.Block'],
+        lean_modules=['Model.Block', 'Model.Bloom', 'Properties.C05', 'Properties.C06', 'Model.CreateAddr', 'Properties.C13', 'Properties.C13Bloom', 'Properties.C13Create', 'Facts.Block'],
         facts=['*'],
         theorems=['C13_txIndex', 'C13_receipt_index', 'C13_logIndex', 'C13_cumulativeGas', 'C13_status', 'C13_contract',
                   'C13_inv_block', 'C13_endBlock_total', 'inv_step', 'fact_log_index_restored',
-                  'C13_bloom_exact', 'C13_bloom_covers', 'C13_bloom_union', 'C13_block_bloom_is_union', 'C13_block_bloom_bits', 'C13_block_bloom_order', 'C13_bloom_fits', 'testBit_logsBloom'],
+                  'C13_bloom_exact', 'C13_bloom_covers', 'C13_bloom_union', 'C13_block_bloom_is_union', 'C13_block_bloom_bits', 'C13_block_bloom_order', 'C13_bloom_fits', 'testBit_logsBloom', 'C13_create_roundtrip', 'C13_create_preimage_injective', 'C13_create_address_injective', 'C17_registry_preimages_distinct', 'decodeNat_rlpNat', 'ofBE_beBytes'],
         engines=[dict(name='block', test='TestEngineBlock', quick=500, thorough=6000, thorough_seeds=3)],
         rule=BLOCK_RULE, assumptions=BLOCK_ASSUME + ['bloom filters: the theorems (exactly the own logs, union, order-independence, 2048 bits) hold for any hash function; that the code computes the same function is the correspondence of the `bloom` lines (Lean Keccak-256 on the logs of the real receipts of every block vs the receipts\' Bloom fields and the block_bloom event), plus the Go-side oracle block-bloom'],
     ),
@@ -243,9 +243,9 @@ PROPS['C20'] = dict(
 )
 
 PROPS['C17'] = dict(
-    lean_modules=['Model.Cpc', 'Properties.C17', 'Facts.CpcRegistry'],
+    lean_modules=['Model.Cpc', 'Model.CreateAddr', 'Properties.C17', 'Properties.C13Create', 'Facts.CpcRegistry'],
     facts=['*'],
-    theorems=['C17_type_immutable', 'C17_version_monotone', 'C17_only_whitelisted_add', 'C17_inv_run', 'C17_one_erc20_per_denom', 'C17_exposure',
+    theorems=['C17_registry_preimages_distinct', 'C13_create_roundtrip', 'C17_type_immutable', 'C17_version_monotone', 'C17_only_whitelisted_add', 'C17_inv_run', 'C17_one_erc20_per_denom', 'C17_exposure',
               'C17_genesis_inv', 'inv_step', 'step_cases', 'step_keeps_none', 'fact_newevm_wires_all_with_disabled'],
     engines=[dict(name='cpc', test='TestEngineCpc', quick=600, thorough=12000, thorough_seeds=3)],
     rule='epochs of [InitGenesis on a wiped cpc store with random flags and whitelist; 8-32 random ops: deploy ERC-20 (6 denominations incl. no-supply and invalid, odd decimals, empty symbol), deploy staking, update params (authority or not, versions 0/1/2, duplicate deployers), keeper-level enable/disable] through the real message server / keeper with per-op cache contexts; after each op the registry, reverse index, params, module sequence and the set of addresses callable through ApplyMessage and through the EthCall query path are compared; non-trivial = every line; distinct by op-line hash',
